@@ -138,7 +138,7 @@ def run(spec, mon):
     tier = spec.get("tier", "quick")
     shard, of = spec["shard"], spec["of"]
     rng = random.Random(spec["seed"])
-    styles_all = [("min", False), ("min", True), ("full", False), ("redundant", "mixed"), ("redundant", "mixed")]
+    styles_all = [("min", False), ("min", True), ("full", False), ("inner", False), ("redundant", "mixed"), ("redundant", "mixed")]
 
     if shard == 0:
         for text in ("", " ", "   ", []):
@@ -168,6 +168,20 @@ def run(spec, mon):
         ast = T.random_tree(rng, RANDOM_OPERANDS, rng.choice([2, 3, 4]))
         check_tree(lab, mon, ast, rng, styles_all)
         mon.seen("random_depth", str(T.depth(ast)))
+    # list-of-terms form with independently rendered terms (each term may have a top-level 'or')
+    for _ in range(nrandom * 3):
+        terms = [T.random_tree(rng, OPERANDS, rng.choice([0, 1, 2, 2])) for _ in range(rng.choice([2, 2, 3]))]
+        texts = [T.render_v2(t, rng, rng.choice(["min", "inner", "inner", "full", "redundant"]), rng.choice([True, False]))
+                 for t in terms]
+        ast = ["and"] + terms
+        case = {"kind": "list", "ast": ast, "text": texts}
+        mon.case(case, True)
+        want = T.truth_table(ast, SUBSETS)
+        try:
+            got, e = lab.table(texts)
+            mon.check("v2.list_form", got == want, lambda: dict(case=case, want=want, got=got, parsed=repr(e)))
+        except Exception as ex:
+            mon.check("v2.list_form", False, dict(case=case, error=repr(ex)))
     for j in range(nconfig):
         c = T.random_tree(rng, OPERANDS, rng.choice([0, 1, 2]), nary=True)
         r = T.random_tree(rng, OPERANDS, rng.choice([0, 1, 2]), nary=True)
